@@ -18,4 +18,22 @@ let run (ws : string list) : string =
       | _ -> failwith "bad run" in
     let (es, _) = Failure.do_history Failure.init_pstate (Stdlib.List.map parse (split_on ';' runs)) in
     String.concat " " (Stdlib.List.map (fun e -> if e = [] then "-" else String.concat "" (Stdlib.List.map (function Failure.EmStderr -> "P" | Failure.EmFile -> "F") e)) es)
+  (* portfolio <stop 0|1> <r,r,...>   r = 0 (passed) | n>0 (panicked with payload class n): what PortfolioRunner::run does *)
+  | ["portfolio"; stop; rs] ->
+    let rs = Stdlib.List.map (fun r -> let i = int_of_string r in if i = 0 then None else Some (nat_of_int i)) (split_on ',' rs) in
+    (match Failure.portfolio_run (stop = "1") rs with
+     | Failure.PfOk -> "P=0"
+     | Failure.PfMember e -> "P=" ^ string_of_int (int_of_nat e)
+     | Failure.PfAssert -> "P=assert")
+  (* shutdown <thread.early.drop;...> <thread> <early> <drop> <unwinding switches 0|1>: the settings in force during a run after
+     a history of runs, and the payload of a panic with own payload 1 *)
+  | ["shutdown"; hist; t; e; d; sw] ->
+    let b x = (x = "1") in
+    let parse r = (match String.split_on_char '.' r with
+      | [t; e; d] -> (nat_of_int (int_of_string t), { Failure.ug_early = b e; Failure.ug_drop = b d })
+      | _ -> failwith "bad run") in
+    let s = Failure.ug_history [] (Stdlib.List.map parse (split_on ';' hist)) in
+    let (eff, _) = Failure.ug_run s (nat_of_int (int_of_string t)) { Failure.ug_early = b e; Failure.ug_drop = b d } in
+    let pay = (match Failure.panic_result eff (b sw) (nat_of_int 1) with Failure.PayOwn _ -> "own" | Failure.PayEarlyReturn -> "early") in
+    Printf.sprintf "E=%d D=%d pay=%s" (if eff.Failure.ug_early then 1 else 0) (if eff.Failure.ug_drop then 1 else 0) pay
   | _ -> failwith "history: bad case"
